@@ -13,7 +13,7 @@ usage: gensim.py check <quick|thorough>   |   gensim.py replay <file>
 exit 0 = held on everything explored, 1 = unlisted violation, 2 = harness error
 """
 import hashlib, json, os, random, shutil, subprocess, sys, time
-from concurrent.futures import ThreadPoolExecutor
+import multiprocessing
 
 VERIF = os.environ.get("VERIF_DIR", "/verif")
 REPO = os.environ.get("VERIF_REPO", "/repo")
@@ -179,11 +179,15 @@ def prepare(workdir):
     for p in c.Rstate:
         bydir.setdefault(os.path.dirname(p), []).append(p)
     gset = set(c.generated)
-    c.generated_dirs = sorted(d for d, fs in bydir.items() if all(f in gset for f in fs) and len(fs) >= 3)
+    # only the directories that hold one artefact per wowm object: there a file "that no longer corresponds to a
+    # definition" is meaningful (the property's wording); directories with a fixed set of outputs are not planted
+    per_object = ("wow_login_messages/src/logon/", "wow_world_messages/src/world/", "wow_world_base/src/inner/", "wowm_language/src/docs")
+    c.generated_dirs = sorted(d for d, fs in bydir.items() if all(f in gset for f in fs) and len(fs) >= 3 and (d + "/").startswith(per_object))
     return c
 
 
-FAULT_KINDS = ["delete", "empty", "prefix", "stale_other", "stale_line", "extra_file", "extra_dir", "delete_dir"]
+# (a stray sub-directory is not something an earlier generator run could have left behind, so it is not planted)
+FAULT_KINDS = ["delete", "empty", "prefix", "stale_other", "stale_line", "extra_file", "delete_dir"]
 CRASH_MANNERS = ["before", "truncate", "torn", "after", "enospc"]
 
 
@@ -358,6 +362,13 @@ def exec_scenario(c, sc, keep=False):
     return {"violations": vv, "counters": counters, "log": log.hexdigest(), "nontrivial": nontrivial, "ops": ro[:6]}
 
 
+_CTX = None
+
+
+def _exec_in_worker(sc):
+    return exec_scenario(_CTX, sc)
+
+
 def shrink(c, sc, sig, budget=8):
     cur = sc
     steps = 0
@@ -414,8 +425,10 @@ def check(tier):
         order_logs = set()
         if c.R is not None:
             scs = [gen_scenario(c, i, seed, tier) for i in range(n)]
-            with ThreadPoolExecutor(max_workers=jobs) as ex:
-                results = list(ex.map(lambda s: exec_scenario(c, s), scs))
+            global _CTX
+            _CTX = c
+            with multiprocessing.get_context("fork").Pool(jobs) as pool:
+                results = pool.map(_exec_in_worker, scs, chunksize=1)
             for sc, r in zip(scs, results):
                 for k, v in r["counters"].items():
                     counters[k] = counters.get(k, 0) + v
